@@ -29,8 +29,8 @@ Fixpoint rep_cons {A} (x : A) (n : nat) (tl : list A) : list A :=
   match n with O => tl | S k => x :: rep_cons x k tl end.
 
 Definition wrap_expand (c : wrap_case) : api_case :=
-  let '(cf, n, outs) := c in
-  (cf, wrap_prefix ++ rep_app wrap_cycle (Z.to_nat n) [],
+  let '((sz, skip, mx), n, outs) := c in
+  ([(0, sz); (1, skip); (2, mx)], wrap_prefix ++ rep_app wrap_cycle (Z.to_nat n) [],
    fold_right (fun on acc => rep_cons (fst on) (Z.to_nat (snd on)) acc) [] outs).
 
 Definition wrap_mismatches (cases : list wrap_case) : list nat := api_mismatches (map wrap_expand cases).
